@@ -34,10 +34,10 @@ const CONTENT_KEY: &str = "_content";
 const HTTP_TYPES: &[&str] = &["basichttp", "http://www.w3.org/TR/scxml/#BasicHTTPEventProcessor"];
 
 /// decorations appended to the unique event name e<n>
-const NAME_DECOR: &[&str] = &["", ".sub", " sp ace", "&a=b", "%25+x", "/\u{fc}\u{df}", "?q#f", ";,:", "=", "+"];
+const NAME_DECOR: &[&str] = &["", ".sub", " sp ace", "&a=b", "%25+x", "/\u{fc}\u{df}", "?q#f", ";,:", "=", "+", ".pad "];
 /// (key, is structured for rocket's form-key grammar)
 const PARAM_KEYS: &[&str] = &["a", "b", "k1", "k \u{e4}", "a&b", "p=q", "per%cent", "plus+", "sl/ash"];
-const PARAM_VALUES: &[&str] = &["5", "str", "", "a b&c=d", "100%", "\u{fc}/?#+", "x=y", "1+1"];
+const PARAM_VALUES: &[&str] = &["5", "str", "", "a b&c=d", "100%", "\u{fc}/?#+", "x=y", "1+1", " lead", "trail ", "  two words  ", " "];
 
 fn xml_attr(s: &str) -> String {
     s.replace('&', "&amp;").replace('<', "&lt;").replace('>', "&gt;").replace('"', "&quot;")
